@@ -40,34 +40,51 @@ def inventory(facts, cg):
     reach = cg.reach(roots)
     sites = {}
     where = {}
+    # a new private helper that was expanded at its uses (verif/normalise.py) has no HIR body of its own any more: its MIR sites are charged
+    # to every function it was expanded into, so that `sites(owner) + sites(helper)` is compared with the owner's reviewed multiplicity
+    inl = getattr(facts, 'inlined', {})
+
+    def owners_of(h, depth=0):
+        out = set()
+        for o in inl.get(h, ()):
+            ob = base(o)
+            if ob in facts.bodies:
+                out.add(ob)
+            elif depth < 4:
+                out |= owners_of(ob, depth + 1)
+        return out
     for m in facts.mir.values():
         d = m['def']
         bd = base(d)
-        if bd not in reach or facts.bodies.get(bd, {}).get('derived'):
+        targets = [bd]
+        if bd not in facts.bodies and bd in inl:
+            targets = sorted(o for o in owners_of(bd) if o in reach)
+        elif bd not in reach or facts.bodies.get(bd, {}).get('derived'):
             continue
-        for bl in m['blocks']:
-            if bl.get('c'):
-                continue
-            t = bl['term']
-            key = None
-            if t['k'] == 'assert':
-                key = (bd, 'assert', t['ak'])
-            elif t['k'] == 'call':
-                c0 = strip_generics(t.get('resolved') or t.get('callee') or '')
-                seg = last_seg(c0)
-                if c0.startswith(PANIC_CALL):
-                    key = (bd, 'panic', (t.get('m') or c0).replace('$crate::', '').replace('panic::', ''))
-                elif seg in ('unwrap', 'expect', 'unwrap_err', 'expect_err') and ('Option' in c0 or 'Result' in c0):
-                    key = (bd, 'unwrap', last_seg(c0.rsplit('::', 1)[0]) + '::' + seg)
-                elif seg in ('index', 'index_mut'):
-                    key = (bd, 'index', c0 or seg)
-                elif seg in ('borrow_mut', 'borrow') and 'RefCell' in c0:
-                    key = (bd, 'refcell', seg)
-                elif seg in ('remove', 'insert', 'swap_remove', 'split_off', 'drain', 'split_at', 'copy_from_slice') and ('Vec' in c0 or 'slice' in c0):
-                    key = (bd, 'vec-op', c0)
-            if key:
-                sites[key] = sites.get(key, 0) + 1
-                where.setdefault(key, f"{facts.rel(m['file'])}:{t.get('l')}")
+        for bd in targets:
+          for bl in m['blocks']:
+              if bl.get('c'):
+                  continue
+              t = bl['term']
+              key = None
+              if t['k'] == 'assert':
+                  key = (bd, 'assert', t['ak'])
+              elif t['k'] == 'call':
+                  c0 = strip_generics(t.get('resolved') or t.get('callee') or '')
+                  seg = last_seg(c0)
+                  if c0.startswith(PANIC_CALL):
+                      key = (bd, 'panic', (t.get('m') or c0).replace('$crate::', '').replace('panic::', ''))
+                  elif seg in ('unwrap', 'expect', 'unwrap_err', 'expect_err') and ('Option' in c0 or 'Result' in c0):
+                      key = (bd, 'unwrap', last_seg(c0.rsplit('::', 1)[0]) + '::' + seg)
+                  elif seg in ('index', 'index_mut'):
+                      key = (bd, 'index', c0 or seg)
+                  elif seg in ('borrow_mut', 'borrow') and 'RefCell' in c0:
+                      key = (bd, 'refcell', seg)
+                  elif seg in ('remove', 'insert', 'swap_remove', 'split_off', 'drain', 'split_at', 'copy_from_slice') and ('Vec' in c0 or 'slice' in c0):
+                      key = (bd, 'vec-op', c0)
+              if key:
+                  sites[key] = sites.get(key, 0) + 1
+                  where.setdefault(key, f"{facts.rel(m['file'])}:{t.get('l')}")
     return roots, reach, sites, where
 
 
